@@ -21,6 +21,7 @@ import (
 	"math/big"
 	"sort"
 	"strconv"
+	"sync"
 
 	"github.com/ElrondNetwork/elrond-go/core"
 	"github.com/ElrondNetwork/elrond-go/marshal"
@@ -29,6 +30,48 @@ import (
 	ssc "github.com/ElrondNetwork/elrond-go/vm/systemSmartContracts"
 	"verif/engine/mc"
 )
+
+// collector keeps per signature the earliest witness in enumeration order, so the reported
+// witness is the simplest one and does not depend on goroutine interleaving.
+type found struct {
+	rank   [2]int64
+	detail map[string]interface{}
+	count  int64
+}
+
+type collector struct {
+	mu sync.Mutex
+	m  map[string]*found
+}
+
+var col = &collector{m: map[string]*found{}}
+
+func (k *collector) add(sig string, rank [2]int64, detail map[string]interface{}) {
+	k.mu.Lock()
+	defer k.mu.Unlock()
+	f := k.m[sig]
+	if f == nil {
+		k.m[sig] = &found{rank, detail, 1}
+		return
+	}
+	f.count++
+	if rank[0] < f.rank[0] || (rank[0] == f.rank[0] && rank[1] < f.rank[1]) {
+		f.rank, f.detail = rank, detail
+	}
+}
+
+func (k *collector) flush(c *mc.Ctx) {
+	sigs := []string{}
+	for s := range k.m {
+		sigs = append(sigs, s)
+	}
+	sort.Strings(sigs)
+	for _, s := range sigs {
+		f := k.m[s]
+		f.detail["violating_cases_in_this_run"] = f.count
+		c.Violation(s, f.detail, nil)
+	}
+}
 
 func bi(s string) *big.Int {
 	v, ok := new(big.Int).SetString(s, 10)
@@ -143,28 +186,28 @@ func partA(c *mc.Ctx) {
 			in := new(big.Int).Set(a)
 			var got *big.Int
 			if perr := mc.Try(func() { got = core.GetIntTrimmedPercentageOfValue(in, p) }); perr != "" {
-				c.Violation("GetIntTrimmedPercentageOfValue:panic", map[string]interface{}{"amount": a.String(), "p": strconv.FormatFloat(p, 'g', -1, 64), "panic": perr}, nil)
+				col.add("GetIntTrimmedPercentageOfValue:panic", [2]int64{int64(i), int64(j)}, map[string]interface{}{"amount": a.String(), "p": strconv.FormatFloat(p, 'g', -1, 64), "panic": perr})
 				continue
 			}
 			det := func(want *big.Int) map[string]interface{} {
 				return map[string]interface{}{"amount": a.String(), "p": strconv.FormatFloat(p, 'g', -1, 64), "got": fmt.Sprint(got), "want": fmt.Sprint(want)}
 			}
 			if got == nil {
-				c.Violation("GetIntTrimmedPercentageOfValue:nil-result", det(nil), nil)
+				col.add("GetIntTrimmedPercentageOfValue:nil-result", [2]int64{int64(i), int64(j)}, det(nil))
 				continue
 			}
 			if in.Cmp(a) != 0 {
-				c.Violation("GetIntTrimmedPercentageOfValue:argument-modified", det(nil), nil)
+				col.add("GetIntTrimmedPercentageOfValue:argument-modified", [2]int64{int64(i), int64(j)}, det(nil))
 			}
 			want := refDecimal(a, p)
 			if got.Cmp(want) != 0 {
-				c.Violation("GetIntTrimmedPercentageOfValue:not-floor-of-amount-times-p", det(want), nil)
+				col.add("GetIntTrimmedPercentageOfValue:not-floor-of-amount-times-p", [2]int64{int64(i), int64(j)}, det(want))
 			}
 			if got.Sign() < 0 || got.Cmp(a) > 0 {
-				c.Violation("GetIntTrimmedPercentageOfValue:out-of-[0,amount]", det(want), nil)
+				col.add("GetIntTrimmedPercentageOfValue:out-of-[0,amount]", [2]int64{int64(i), int64(j)}, det(want))
 			}
 			if prev != nil && got.Cmp(prev) < 0 {
-				c.Violation("GetIntTrimmedPercentageOfValue:not-monotone-in-amount", map[string]interface{}{"amount": a.String(), "smaller_amount": amounts[j-1].String(), "p": strconv.FormatFloat(p, 'g', -1, 64), "got": got.String(), "got_for_smaller": prev.String()}, nil)
+				col.add("GetIntTrimmedPercentageOfValue:not-monotone-in-amount", [2]int64{int64(i), int64(j)}, map[string]interface{}{"amount": a.String(), "smaller_amount": amounts[j-1].String(), "p": strconv.FormatFloat(p, 'g', -1, 64), "got": got.String(), "got_for_smaller": prev.String()})
 			}
 			prev = got
 			if refBinary(a, p).Cmp(want) != 0 {
@@ -230,9 +273,11 @@ func partB(c *mc.Ctx) {
 	names := [3]string{"owner", "delegator1", "delegator2"}
 	mc.Par(len(fees), func(fi int) {
 		fee := fees[fi]
+		var seq int64
 		for _, R := range rewards {
 			for _, sv := range stakeVecs {
 				c.Eval(1)
+				seq++
 				c.Count("partB_cases", 1)
 				w := &world{store: map[string][]byte{}, epoch: 1}
 				w.store[string(ssc.VerifC36OwnerKey())] = []byte(names[0])
@@ -266,12 +311,12 @@ func partB(c *mc.Ctx) {
 						err = ssc.VerifC36ComputeAndUpdateRewards(w.eei(), m, 10000, true, []byte(names[k]), dd)
 					})
 					if perr != "" || err != nil {
-						c.Violation("delegation-split:error", map[string]interface{}{"rewards": R.String(), "fee": fee, "stakes": sv, "who": names[k], "err": fmt.Sprint(err), "panic": perr}, nil)
+						col.add("delegation-split:error", [2]int64{1<<40 + int64(fi), seq}, map[string]interface{}{"rewards": R.String(), "fee": fee, "stakes": sv, "who": names[k], "err": fmt.Sprint(err), "panic": perr})
 						bad = true
 						break
 					}
 					if dd.UnClaimedRewards.Sign() < 0 {
-						c.Violation("delegation-split:negative-payout", map[string]interface{}{"rewards": R.String(), "fee": fee, "stakes": sv, "who": names[k], "payout": dd.UnClaimedRewards.String()}, nil)
+						col.add("delegation-split:negative-payout", [2]int64{1<<40 + int64(fi), seq}, map[string]interface{}{"rewards": R.String(), "fee": fee, "stakes": sv, "who": names[k], "payout": dd.UnClaimedRewards.String()})
 					}
 					pay[names[k]] = dd.UnClaimedRewards.String()
 					sum.Add(sum, dd.UnClaimedRewards)
@@ -285,15 +330,15 @@ func partB(c *mc.Ctx) {
 				// function returns early); his share stays in the contract, so the sum may be
 				// lower by the owner part. Never higher than the rewards.
 				if sum.Cmp(R) > 0 {
-					c.Violation("delegation-split:pays-more-than-rewards-to-distribute", det, nil)
+					col.add("delegation-split:pays-more-than-rewards-to-distribute", [2]int64{1<<40 + int64(fi), seq}, det)
 				}
 				if ownerStakes {
 					lost := new(big.Int).Sub(R, sum)
 					if lost.Cmp(big.NewInt(int64(n))) >= 0 {
-						c.Violation("delegation-split:loses-more-than-rounding-dust", det, nil)
+						col.add("delegation-split:loses-more-than-rounding-dust", [2]int64{1<<40 + int64(fi), seq}, det)
 					}
 					if n == 1 && sum.Cmp(R) != 0 {
-						c.Violation("delegation-split:owner-part-plus-pool-differs-from-rewards", det, nil)
+						col.add("delegation-split:owner-part-plus-pool-differs-from-rewards", [2]int64{1<<40 + int64(fi), seq}, det)
 					}
 					if n >= 2 && R.Sign() > 0 && fee > 0 && fee < 10000 {
 						c.Nontrivial(fmt.Sprint("B", R, fee, sv))
@@ -318,5 +363,6 @@ func main() {
 		}
 		partA(c)
 		partB(c)
+		col.flush(c)
 	})
 }
